@@ -1058,3 +1058,19 @@ pub fn m_replay_literal_string() {
 }
 #[cfg(kani)]
 pub fn m_replay_literal_string() {}
+
+/// a line that names the same month twice natively: both names are months
+#[cfg(not(kani))]
+pub fn m_replay_month_twice() {
+    let mut calc = crate::SmartCalc::default();
+    calc.set_decimal_seperator(".".to_string());
+    calc.set_thousand_separator(",".to_string());
+    let r = calc.execute("en", "1 january 2021 to 11 january 2021".to_string());
+    let out = match &r.lines[0] { Some(l) => match &l.result { Ok(x) => x.output.clone(), Err(e) => e.clone() }, None => String::new() };
+    assert!(out == "1 week 3 days");
+    let r = calc.execute("en", "5 march 2020 to 6 march 2020".to_string());
+    let out = match &r.lines[0] { Some(l) => match &l.result { Ok(x) => x.output.clone(), Err(e) => e.clone() }, None => String::new() };
+    assert!(out == "1 day");
+}
+#[cfg(kani)]
+pub fn m_replay_month_twice() {}
